@@ -238,3 +238,365 @@ Proof.
     change (dn l_rename) with RENAME_NAME. rewrite H1. auto.
   - unfold alive_r, is_inserted, ahas. destruct n. cbn [with_attrs xattrs] in *. now rewrite H2.
 Qed.
+
+(* ------------------------------------------------------------------ *)
+(** * Decoded actions *)
+
+Inductive dact :=
+| DDeleteNode (nd : str)
+| DInsertNode (tg tag : str) (pos : nat)
+| DRenameNode (nd tag : str)
+| DMoveNode (nd tg : str) (pos : nat)
+| DTextIn (nd : str) (t : option str)
+| DTextAfter (nd : str) (t : option str)
+| DUpdAttr (nd k v : str)
+| DDelAttr (nd k : str)
+| DInsAttr (nd k v : str)
+| DRenAttr (nd k k' : str)
+| DInsNs (p : option str) (u : str)
+| DDelNs.
+
+Section Steps.
+Variable c : cfg.
+Variable o : oracle.
+Variable rootns : list (option str * str).
+
+Definition handle_d (st : fstate) (d : dact) : fres fstate :=
+  match d with
+  | DDeleteNode nd => handle_DeleteNode rootns st nd
+  | DInsertNode tg tag pos => handle_InsertNode rootns st tg tag pos
+  | DRenameNode nd tag => handle_RenameNode rootns st nd tag
+  | DMoveNode nd tg pos => handle_MoveNode rootns st nd tg pos
+  | DTextIn nd t => handle_UpdateTextIn c o rootns st nd t
+  | DTextAfter nd t => handle_UpdateTextAfter c o rootns st nd t
+  | DUpdAttr nd k v => handle_UpdateAttrib rootns st nd k v
+  | DDelAttr nd k => handle_DeleteAttrib rootns st nd k
+  | DInsAttr nd k v => handle_InsertAttrib rootns st nd k v
+  | DRenAttr nd k k' => handle_RenameAttrib rootns st nd k k'
+  | DInsNs p u => handle_InsertNamespace st p u
+  | DDelNs => FOk st
+  end.
+
+Lemma p_str_ok v s : p_str v = FOk s -> v = PStr s.
+Proof. destruct v; cbn; intros H; inversion H; reflexivity. Qed.
+Lemma po_str_ok v s : po_str v = FOk s -> v = match s with Some x => PStr x | None => PNone end.
+Proof. destruct v; cbn; intros H; inversion H; reflexivity. Qed.
+
+(* the dispatch of handle_action, once and for all *)
+Definition decode (a : gaction) : fres dact :=
+  let f := ga_fields a in
+  if ctor_is a n_DeleteNode then
+    match f with [nd] => fbind (p_str nd) (fun nd => FOk (DDeleteNode nd)) | _ => FErr FUnsupported end
+  else if ctor_is a n_InsertNode then
+    match f with [tg; tag; ps] =>
+      fbind (p_str tg) (fun tg => fbind (p_str tag) (fun tag => fbind (p_nat ps) (fun ps => FOk (DInsertNode tg tag ps))))
+    | _ => FErr FUnsupported end
+  else if ctor_is a n_RenameNode then
+    match f with [nd; tag] => fbind (p_str nd) (fun nd => fbind (p_str tag) (fun tag => FOk (DRenameNode nd tag)))
+    | _ => FErr FUnsupported end
+  else if ctor_is a n_MoveNode then
+    match f with [nd; tg; ps] =>
+      fbind (p_str nd) (fun nd => fbind (p_str tg) (fun tg => fbind (p_nat ps) (fun ps => FOk (DMoveNode nd tg ps))))
+    | _ => FErr FUnsupported end
+  else if ctor_is a n_UpdateTextIn then
+    match f with [nd; tx] => fbind (p_str nd) (fun nd => fbind (po_str tx) (fun tx => FOk (DTextIn nd tx)))
+    | _ => FErr FUnsupported end
+  else if ctor_is a n_UpdateTextAfter then
+    match f with [nd; tx] => fbind (p_str nd) (fun nd => fbind (po_str tx) (fun tx => FOk (DTextAfter nd tx)))
+    | _ => FErr FUnsupported end
+  else if ctor_is a n_UpdateAttrib then
+    match f with [nd; k; v] =>
+      fbind (p_str nd) (fun nd => fbind (p_str k) (fun k => fbind (p_str v) (fun v => FOk (DUpdAttr nd k v))))
+    | _ => FErr FUnsupported end
+  else if ctor_is a n_DeleteAttrib then
+    match f with [nd; k] => fbind (p_str nd) (fun nd => fbind (p_str k) (fun k => FOk (DDelAttr nd k)))
+    | _ => FErr FUnsupported end
+  else if ctor_is a n_InsertAttrib then
+    match f with [nd; k; v] =>
+      fbind (p_str nd) (fun nd => fbind (p_str k) (fun k => fbind (p_str v) (fun v => FOk (DInsAttr nd k v))))
+    | _ => FErr FUnsupported end
+  else if ctor_is a n_RenameAttrib then
+    match f with [nd; k; k'] =>
+      fbind (p_str nd) (fun nd => fbind (p_str k) (fun k => fbind (p_str k') (fun k' => FOk (DRenAttr nd k k'))))
+    | _ => FErr FUnsupported end
+  else if ctor_is a n_InsertNamespace then
+    match f with [p; u] => fbind (po_str p) (fun p => fbind (p_str u) (fun u => FOk (DInsNs p u)))
+    | _ => FErr FUnsupported end
+  else if ctor_is a n_DeleteNamespace then FOk DDelNs
+  else FErr FAttributeError.
+
+Lemma handle_action_decode st a : handle_action c o rootns st a = fbind (decode a) (handle_d st).
+Proof.
+  unfold handle_action, decode.
+  repeat match goal with
+  | |- (if ctor_is a ?n then _ else _) = _ => destruct (ctor_is a n)
+  end; try reflexivity;
+  repeat match goal with
+  | |- match ?l with [] => _ | _ :: _ => _ end = _ => destruct l; try reflexivity
+  end;
+  repeat match goal with
+  | |- fbind (?g ?v) _ = _ => destruct (g v); cbn [fbind]; try reflexivity
+  end.
+Qed.
+
+Lemma upd_node_inv st p f st' : upd_node st p f = FOk st' ->
+  exists n n', get_at (fs_tree st) p = Some n /\ f n = FOk n' /\
+               st' = FS (map_at p (fun _ => n') (fs_tree st)) (fs_ph st) (fs_ns st).
+Proof.
+  unfold upd_node, node_at. intros H. apply fbind_ok in H as (n & E & H).
+  destruct (get_at (fs_tree st) p) as [n0|] eqn:G; [|discriminate]. inversion E; subst n0.
+  apply fbind_ok in H as (n' & E' & H). inversion H; subst. eauto.
+Qed.
+
+Definition tag_ok (tag : str) : Prop := wrapper_kind (XNode tag [] None [] []) = None.
+
+Lemma wrapper_kind_tag t : wrapper_kind t = wrapper_kind (XNode (xtag t) [] None [] []).
+Proof. destruct t; reflexivity. Qed.
+
+Definition step_ok (st : fstate) (d : dact) : Prop :=
+  match d with
+  | DRenameNode nd tag =>
+      tag_ok tag /\ forall p n, resolve rootns st nd = FOk p -> get_at (fs_tree st) p = Some n ->
+                                aget (xattrs n) RENAME_NAME = None
+  | DInsertNode _ tag _ => tag_ok tag
+  | DTextIn nd t =>
+      plain (otxt t) /\ forall p n, resolve rootns st nd = FOk p -> get_at (fs_tree st) p = Some n ->
+                                    is_inserted n = false -> plain (otxt (xtext n))
+  | DTextAfter nd t =>
+      plain (otxt t) /\ forall p n, resolve rootns st nd = FOk p -> get_at (fs_tree st) p = Some n ->
+                                    p <> [] /\ plain (xtail n)
+  | DUpdAttr _ k _ | DDelAttr _ k | DInsAttr _ k _ => plain_name k
+  | DRenAttr _ k k' => plain_name k /\ plain_name k'
+  | _ => True
+  end.
+
+(* ---- one node rewritten: invariant and view ---- *)
+Lemma winv_map_at W p n n' : winv W -> get_at W p = Some n ->
+  run_tree n' -> clean_tags n' -> alive_r n' = alive_r n -> (p = [] -> xtail n' = xtail n) ->
+  winv (map_at p (fun _ => n') W).
+Proof.
+  intros [H1 H2 H3 H4] G R C A T. split.
+  - apply run_tree_map_at; assumption.
+  - apply clean_tags_map_at; assumption.
+  - destruct p as [|i p]; cbn [map_at get_at] in *.
+    + inversion G; subst. rewrite T by reflexivity. exact H3.
+    + destruct (nth_error (xkids W) i); [destruct W; exact H3|exact H3].
+  - destruct p as [|i p]; cbn [map_at get_at] in *.
+    + inversion G; subst. unfold alive_r in A. apply (f_equal negb) in A. rewrite !negb_involutive in A. congruence.
+    + destruct (nth_error (xkids W) i); [destruct W; exact H4|exact H4].
+Qed.
+
+Lemma root_alive_r W p n : winv W -> get_at W p = Some n -> p = [] -> alive_r n = true.
+Proof. intros H G ->. cbn in G. inversion G; subst. unfold alive_r. now rewrite (wi_root _ H). Qed.
+
+Lemma reject_map_at ws W p n n' : winv W -> get_at W p = Some n -> alive_r n' = alive_r n ->
+  (alive_r n = true -> vr ws n' = vr ws n) -> vr ws (map_at p (fun _ => n') W) = vr ws W.
+Proof.
+  intros HW G A V. destruct (vr_map_at ws W p n n' G A V) as [_ H]. apply H.
+  destruct p; [right; eapply root_alive_r; eauto|left; discriminate].
+Qed.
+
+(* an attribute-only rewrite that keeps diff:rename and diff:insert *)
+Lemma attrs_step ws W p n a : winv W -> get_at W p = Some n -> same_marks a (xattrs n) ->
+  winv (map_at p (fun _ => with_attrs n a) W) /\ vr ws (map_at p (fun _ => with_attrs n a) W) = vr ws W.
+Proof.
+  intros HW G M. destruct (same_marks_view ws n a M) as [V A]. split.
+  - apply (winv_map_at W p n _ HW G); [| |exact A|destruct n; reflexivity].
+    + pose proof (run_tree_get _ _ _ (wi_run _ HW) G) as R. destruct n. inversion R; subst. constructor; assumption.
+    + pose proof (clean_tags_get _ _ _ (wi_tags _ HW) G) as C. destruct n. inversion C; subst. constructor; assumption.
+  - apply (reject_map_at ws W p n _ HW G A). intros _. exact V.
+Qed.
+
+Lemma same_marks_delete a : same_marks (aput a DELETE_NAME []) a.
+Proof. split; apply aget_aput_other; intros E; apply dname_inj in E; discriminate. Qed.
+
+Lemma same_marks_extend a action v : action = Placeholder.s_delete \/ action = s_add \/ action = s_rename \/ action = s_update ->
+  same_marks (extend_diff_attr a action v) a.
+Proof.
+  intros H. split; apply extend_get; apply attr_suffix_neq; auto.
+Qed.
+
+Lemma same_marks_trans a b d : same_marks a b -> same_marks b d -> same_marks a d.
+Proof. intros [A1 A2] [B1 B2]. split; congruence. Qed.
+
+Lemma same_marks_aput a k v : plain_name k -> same_marks (aput a k v) a.
+Proof. intros H. split; apply aget_aput_other; intros E; symmetry in E; revert E; apply plain_name_neq, H. Qed.
+Lemma same_marks_adel a k : plain_name k -> same_marks (adel a k) a.
+Proof. intros H. split; apply aget_adel_other; intros E; symmetry in E; revert E; apply plain_name_neq, H. Qed.
+End Steps.
+
+Section Steps2.
+Variable c : cfg.
+Variable o : oracle.
+Variable rootns : list (option str * str).
+Hypothesis Hrep : c_replace c = false.
+Let ws := ws_text c.
+
+Lemma own_of_run n : run_tree n -> is_run (otxt (xtext n)) /\ is_run (xtail n) /\ Forall run_tree (xkids n).
+Proof. intros H. inversion H; subst. cbn. auto. Qed.
+Lemma own_of_clean n : clean_tags n -> wrapper_kind n = None /\ Forall clean_tags (xkids n).
+Proof. intros H. inversion H; subst. cbn. auto. Qed.
+
+Lemma vr_text_tail ws0 n n' :
+  proj_tag false n' = proj_tag false n -> xkids n' = xkids n ->
+  ntxt ws0 (rstr (otxt (xtext n'))) = ntxt ws0 (rstr (otxt (xtext n))) ->
+  ntxt ws0 (rstr (xtail n')) = ntxt ws0 (rstr (xtail n)) -> vr ws0 n' = vr ws0 n.
+Proof. intros H1 H2 H3 H4. apply vr_same. unfold same_r. rewrite H1, H2, H3, H4. auto. Qed.
+
+Theorem step_reject st d st' :
+  winv (fs_tree st) -> fs_ph st = ph_init -> step_ok rootns st d -> handle_d c o rootns st d = FOk st' ->
+  winv (fs_tree st') /\ fs_ph st' = ph_init /\ vr ws (fs_tree st') = vr ws (fs_tree st).
+Proof.
+  intros HW Hph Hok H. destruct d; cbn [handle_d step_ok] in *.
+  - (* DeleteNode *)
+    unfold handle_DeleteNode in H. apply fbind_ok in H as (p & Ep & H).
+    apply upd_node_inv in H as (n & n' & G & E & ->). inversion E; subst n'. cbn [fs_tree fs_ph].
+    destruct (attrs_step ws _ p n _ HW G (same_marks_delete (xattrs n))) as [I V]. auto.
+  - (* InsertNode *)
+    unfold handle_InsertNode in H. apply fbind_ok in H as (p & Ep & H).
+    apply upd_node_inv in H as (n & n' & G & E & ->). inversion E; subst n'. cbn [fs_tree fs_ph].
+    pose proof (run_tree_get _ _ _ (wi_run _ HW) G) as R. pose proof (clean_tags_get _ _ _ (wi_tags _ HW) G) as C.
+    destruct (own_of_run n R) as (R1 & R2 & R3). destruct (own_of_clean n C) as (C1 & C2).
+    set (new := XNode tag [(INSERT_NAME, [])] None [] []).
+    assert (Hdead : alive_r new = false) by reflexivity.
+    assert (A : alive_r (h_InsertNode n tag pos) = alive_r n) by (destruct n; reflexivity).
+    split; [|split; [exact Hph|]].
+    + apply (winv_map_at _ p n _ HW G); [| |exact A|destruct n; reflexivity].
+      * destruct n. constructor; cbn in *; auto. apply Forall_insert_kid; [exact R3|].
+        constructor; [apply is_run_plain; reflexivity|apply is_run_plain; reflexivity|constructor].
+      * destruct n. constructor; [exact C1|]. cbn in *. apply Forall_insert_kid; [exact C2|].
+        constructor; [exact Hok|constructor].
+    + apply (reject_map_at ws _ p n _ HW G A). intros _. apply vr_same.
+      destruct n as [ntg nat_ ntx ntl nks]. unfold same_r, h_InsertNode. cbn [with_kids xtag xattrs xtext xtail xkids proj_tag].
+      repeat split. now rewrite (filter_insert_kid_dead alive_r nks _ new Hdead).
+  - (* RenameNode *)
+    destruct Hok as [Htag Hren].
+    unfold handle_RenameNode in H. apply fbind_ok in H as (p & Ep & H).
+    apply upd_node_inv in H as (n & n' & G & E & ->). inversion E; subst n'. cbn [fs_tree fs_ph].
+    specialize (Hren p n Ep G).
+    pose proof (run_tree_get _ _ _ (wi_run _ HW) G) as R. pose proof (clean_tags_get _ _ _ (wi_tags _ HW) G) as C.
+    destruct (own_of_run n R) as (R1 & R2 & R3). destruct (own_of_clean n C) as (C1 & C2).
+    assert (A : alive_r (h_RenameNode n tag) = alive_r n).
+    { destruct n as [ntg nat_ ntx ntl nks]. unfold alive_r, is_inserted, ahas, h_RenameNode. cbn [with_tag with_attrs xattrs xtag].
+      rewrite aget_aput_other; [reflexivity|]. intros E0; apply dname_inj in E0; discriminate. }
+    split; [|split; [exact Hph|]].
+    + apply (winv_map_at _ p n _ HW G); [| |exact A|destruct n; reflexivity].
+      * destruct n. constructor; cbn in *; auto.
+      * destruct n. constructor; [|exact C2]. rewrite wrapper_kind_tag. exact Htag.
+    + apply (reject_map_at ws _ p n _ HW G A). intros _. apply vr_text_tail; try (destruct n; reflexivity).
+      destruct n as [ntg nat_ ntx ntl nks]. unfold h_RenameNode. cbn [with_tag with_attrs xattrs xtag proj_tag] in *.
+      change (dn l_rename) with RENAME_NAME. rewrite aget_aput, str_eqb_refl, Hren. reflexivity.
+  - (* MoveNode *)
+    unfold handle_MoveNode in H. apply fbind_ok in H as (pn & Epn & H).
+    unfold node_at in H. destruct (get_at (fs_tree st) pn) as [copy|] eqn:Gn; [|discriminate]. cbn [fbind] in H.
+    apply fbind_ok in H as (pt & Ept & H).
+    set (t1 := map_at pn delete_node (fs_tree st)) in *.
+    destruct (get_at t1 pt) as [tgn|] eqn:Gt; [|discriminate]. cbn [fbind] in H. inversion H; subst st'. clear H.
+    cbn [fs_tree fs_ph].
+    assert (E1 : t1 = map_at pn (fun _ => delete_node copy) (fs_tree st)).
+    { unfold t1. apply map_at_ext. intros n0 Hn0. congruence. }
+    destruct (attrs_step ws _ pn copy _ HW Gn (same_marks_delete (xattrs copy))) as [I1 V1].
+    fold (delete_node copy) in I1, V1. rewrite <- E1 in I1, V1.
+    set (ins := with_attrs copy (aput (xattrs copy) INSERT_NAME [])) in *.
+    set (real := real_insert_position (xkids tgn) pos) in *.
+    rewrite (map_at_ext pt _ (fun _ => with_kids tgn (insert_kid real ins (xkids tgn))) t1)
+      by (intros n0 Hn0; congruence).
+    pose proof (run_tree_get _ _ _ (wi_run _ HW) Gn) as Rc. pose proof (clean_tags_get _ _ _ (wi_tags _ HW) Gn) as Cc.
+    pose proof (run_tree_get _ _ _ (wi_run _ I1) Gt) as R. pose proof (clean_tags_get _ _ _ (wi_tags _ I1) Gt) as C.
+    destruct (own_of_run tgn R) as (R1 & R2 & R3). destruct (own_of_clean tgn C) as (C1 & C2).
+    assert (Hdead : alive_r ins = false).
+    { unfold ins, alive_r, is_inserted, ahas. destruct copy. cbn [with_attrs xattrs]. now rewrite aget_aput, str_eqb_refl. }
+    assert (A : alive_r (with_kids tgn (insert_kid real ins (xkids tgn))) = alive_r tgn) by (destruct tgn; reflexivity).
+    split; [|split; [exact Hph|]].
+    + apply (winv_map_at _ pt tgn _ I1 Gt); [| |exact A|destruct tgn; reflexivity].
+      * destruct tgn. constructor; cbn in *; auto. apply Forall_insert_kid; [exact R3|].
+        unfold ins. destruct copy. inversion Rc; subst. constructor; assumption.
+      * destruct tgn. constructor; [exact C1|]. cbn in *. apply Forall_insert_kid; [exact C2|].
+        unfold ins. destruct copy. inversion Cc; subst. constructor; assumption.
+    + rewrite <- V1. apply (reject_map_at ws _ pt tgn _ I1 Gt A). intros _. apply vr_same.
+      destruct tgn as [tg0 at_ tx tl ks]. unfold same_r. cbn [with_kids xtag xattrs xtext xtail xkids proj_tag].
+      repeat split. now rewrite (filter_insert_kid_dead alive_r ks _ ins Hdead).
+  - (* UpdateTextIn *)
+    destruct Hok as [Htxt Hold].
+    unfold handle_UpdateTextIn in H. apply fbind_ok in H as (p & Ep & H).
+    unfold node_at in H. destruct (get_at (fs_tree st) p) as [n|] eqn:G; [|discriminate]. cbn [fbind] in H.
+    specialize (Hold p n Ep G).
+    pose proof (run_tree_get _ _ _ (wi_run _ HW) G) as R. pose proof (clean_tags_get _ _ _ (wi_tags _ HW) G) as C.
+    destruct (own_of_run n R) as (R1 & R2 & R3). destruct (own_of_clean n C) as (C1 & C2).
+    destruct (is_inserted n) eqn:Ei.
+    + inversion H; subst st'. clear H. cbn [fs_tree fs_ph].
+      rewrite (map_at_ext p _ (fun _ => with_text n t) (fs_tree st)) by (intros n0 Hn0; congruence).
+      assert (A : alive_r (with_text n t) = alive_r n) by (destruct n; reflexivity).
+      split; [|split; [exact Hph|]].
+      * apply (winv_map_at _ p n _ HW G); [| |exact A|destruct n; reflexivity].
+        -- destruct n. constructor; cbn in *; auto. apply is_run_plain, Htxt.
+        -- destruct n. constructor; assumption.
+      * apply (reject_map_at ws _ p n _ HW G A). unfold alive_r. rewrite Ei. discriminate.
+    + rewrite Hph in H. apply fbind_ok in H as ([[s' out] any] & Em & H).
+      destruct (make_diff_tags_spec c o _ _ false _ Hrep (Hold eq_refl) Htxt Em) as (d & Er & T1 & T2 & Fd).
+      inversion Er; subst s' out any. clear Er. inversion H; subst st'. clear H. cbn [fs_tree fs_ph].
+      set (newtext := if match d with [] => false | _ => true end then Some (enc d) else None).
+      rewrite (map_at_ext p _ (fun _ => with_text n newtext) (fs_tree st)) by (intros n0 Hn0; congruence).
+      assert (Hnt : otxt newtext = enc d) by (unfold newtext; destruct d; reflexivity).
+      assert (A : alive_r (with_text n newtext) = alive_r n) by (destruct n; reflexivity).
+      assert (Fp : Forall (fun sg : DMP.op * str => plain (snd sg)) d) by (eapply Forall_impl; [|exact Fd]; intros a [Ha _]; exact Ha).
+      split; [|split; [reflexivity|]].
+      * apply (winv_map_at _ p n _ HW G); [| |exact A|destruct n; reflexivity].
+        -- destruct n. constructor; cbn in *; auto. rewrite Hnt. apply is_run_enc, Fd.
+        -- destruct n. constructor; assumption.
+      * apply (reject_map_at ws _ p n _ HW G A). intros _. apply vr_text_tail; try (destruct n; reflexivity).
+        destruct n as [ntg nat_ ntx ntl nks]. cbn [with_text xtext] in *. rewrite Hnt, (rstr_enc d Fp), T1.
+        rewrite (rstr_plain _ (Hold eq_refl)). apply ntxt_norm_if.
+  - (* UpdateTextAfter *)
+    destruct Hok as [Htxt Hold].
+    unfold handle_UpdateTextAfter in H. apply fbind_ok in H as (p & Ep & H).
+    unfold node_at in H. destruct (get_at (fs_tree st) p) as [n|] eqn:G; [|discriminate]. cbn [fbind] in H.
+    destruct (Hold p n Ep G) as [Hp Hpl].
+    assert (Hm : forall (x y : fres fstate), match p with [] => x | _ :: _ => y end = y) by (destruct p; [congruence|reflexivity]).
+    rewrite Hm in H. clear Hm.
+    pose proof (run_tree_get _ _ _ (wi_run _ HW) G) as R. pose proof (clean_tags_get _ _ _ (wi_tags _ HW) G) as C.
+    destruct (own_of_run n R) as (R1 & R2 & R3). destruct (own_of_clean n C) as (C1 & C2).
+    rewrite Hph in H. apply fbind_ok in H as ([[s' out] any] & Em & H).
+    destruct (make_diff_tags_spec c o _ _ true _ Hrep Hpl Htxt Em) as (d & Er & T1 & T2 & Fd).
+    inversion Er; subst s' out any. clear Er. inversion H; subst st'. clear H. cbn [fs_tree fs_ph].
+    rewrite (map_at_ext p _ (fun _ => with_tail n (enc d)) (fs_tree st)) by (intros n0 Hn0; congruence).
+    assert (A : alive_r (with_tail n (enc d)) = alive_r n) by (destruct n; reflexivity).
+    assert (Fp : Forall (fun sg : DMP.op * str => plain (snd sg)) d) by (eapply Forall_impl; [|exact Fd]; intros a [Ha _]; exact Ha).
+    split; [|split; [reflexivity|]].
+    + apply (winv_map_at _ p n _ HW G); [| |exact A|congruence].
+      * destruct n. constructor; cbn in *; auto. apply is_run_enc, Fd.
+      * destruct n. constructor; assumption.
+    + apply (reject_map_at ws _ p n _ HW G A). intros _. apply vr_text_tail; try (destruct n; reflexivity).
+      destruct n as [ntg nat_ ntx ntl nks]. cbn [with_tail xtail] in *. rewrite (rstr_enc d Fp), T1.
+      rewrite (rstr_plain _ Hpl). apply ntxt_norm_if.
+  - (* UpdateAttrib *)
+    unfold handle_UpdateAttrib in H. apply fbind_ok in H as (p & Ep & H).
+    apply upd_node_inv in H as (n & n' & G & E & ->). unfold h_UpdateAttrib in E.
+    destruct (aget (xattrs n) k) as [oldval|]; [|discriminate]. inversion E; subst n'. cbn [fs_tree fs_ph].
+    match goal with |- context [with_attrs n ?a] => destruct (attrs_step ws _ p n a HW G) as [I V] end; [|auto].
+    eapply same_marks_trans; [apply same_marks_extend; auto|apply same_marks_aput, Hok].
+  - (* DeleteAttrib *)
+    unfold handle_DeleteAttrib in H. apply fbind_ok in H as (p & Ep & H).
+    apply upd_node_inv in H as (n & n' & G & E & ->). unfold h_DeleteAttrib in E.
+    destruct (ahas (xattrs n) k); [|discriminate]. inversion E; subst n'. cbn [fs_tree fs_ph].
+    match goal with |- context [with_attrs n ?a] => destruct (attrs_step ws _ p n a HW G) as [I V] end; [|auto].
+    eapply same_marks_trans; [apply same_marks_extend; auto|apply same_marks_adel, Hok].
+  - (* InsertAttrib *)
+    unfold handle_InsertAttrib in H. apply fbind_ok in H as (p & Ep & H).
+    apply upd_node_inv in H as (n & n' & G & E & ->). unfold h_InsertAttrib in E. inversion E; subst n'. cbn [fs_tree fs_ph].
+    match goal with |- context [with_attrs n ?a] => destruct (attrs_step ws _ p n a HW G) as [I V] end; [|auto].
+    eapply same_marks_trans; [apply same_marks_extend; auto|apply same_marks_aput, Hok].
+  - (* RenameAttrib *)
+    destruct Hok as [Hk Hk'].
+    unfold handle_RenameAttrib in H. apply fbind_ok in H as (p & Ep & H).
+    apply upd_node_inv in H as (n & n' & G & E & ->). unfold h_RenameAttrib in E.
+    destruct (aget (xattrs n) k) as [v|]; [|discriminate]. inversion E; subst n'. cbn [fs_tree fs_ph].
+    match goal with |- context [with_attrs n ?a] => destruct (attrs_step ws _ p n a HW G) as [I V] end; [|auto].
+    eapply same_marks_trans; [apply same_marks_extend; auto|].
+    eapply same_marks_trans; [apply same_marks_adel, Hk|apply same_marks_aput, Hk'].
+  - (* InsertNamespace *)
+    unfold handle_InsertNamespace in H. inversion H; subst st'. cbn [fs_tree fs_ph]. auto.
+  - (* DeleteNamespace *)
+    inversion H; subst st'. auto.
+Qed.
+End Steps2.
